@@ -51,6 +51,37 @@ def _helper(job):
     return (n, s, int(got), O.gw_total(n, s))
 
 
+PROBE_N = (257, 258, 259, 300, 301)
+PROBE_S = (1, 4, 43, 44, 255, 256, 257, 260, 299, 300)
+
+
+def probe_pairs():
+    """Ordered boundary probes (255/256/257 for n AND for the unit count), ascending unit count."""
+    return [[n, s] for s in PROBE_S for n in PROBE_N if s <= n + 1]
+
+
+def seq_probe(payload):
+    """Runs in a pristine interpreter: helper + Multistage (+ Revolve for few units) per pair, in order."""
+    out = []
+    for n, s in payload["pairs"]:
+        v = []
+        hn, hs, got, want = _helper((n, s))
+        if got != want:
+            v.append(["optimal_steps_binomial", None, "optimal_steps_binomial(%d,%d)=%r, optimum %d" % (n, s, got, want)])
+        cfgs = [{"cls": "Multistage", "n": n, "ram": s, "disk": 0, "traj": "maximum", "passes": 1},
+                {"cls": "Multistage", "n": n, "ram": 1, "disk": s - 1, "traj": "revolve", "passes": 1}]
+        if s <= 44:
+            cfgs.append({"cls": "Revolve", "n": n, "s": s, "c8": [8, 16, 16, 16], "passes": 1})
+        for cfg in cfgs:
+            if cfg["cls"] == "Multistage" and cfg["disk"] < 0:
+                continue
+            o = _case(cfg)
+            for pred, detail in o["viol"]:
+                v.append([pred, cfg, detail])
+        out.append({"n": n, "s": s, "viol": v})
+    return out
+
+
 def _gen(job):
     tier, seed, shard, count = job
     from hypothesis import strategies as st
@@ -95,6 +126,10 @@ def _box(tier):
 
 def check_witness(data, show=False):
     w = data["witness"]
+    if data.get("kind") == "sequence":
+        res = R.pristine_call("vlib.props.c05.seq_probe", {"pairs": w["sequence"]})
+        last = res[-1] if res else {"viol": []}
+        return [((C.variant(c) if c else "helper", p), w, d + " [after the earlier calls of the sequence, in one process]", "sequence") for p, c, d in last["viol"]]
     if data.get("kind") == "helper":
         n, s, got, want = _helper((w["n"], w["s"]))
         if show:
@@ -130,6 +165,7 @@ def run(prop, args):
     rep.extra["oracle_selfcheck"] = {"search_vs_dp_vs_closed_form": len(sc), "search_n_max": NS,
                                      "dp_vs_closed_form_instances": sum(n - 1 for n in range(2, NC + 1))}
     # (2) library streams
+    probe = R.pristine_start("vlib.props.c05.seq_probe", {"pairs": probe_pairs()})
     box = list(_box(tier))
     res = R.pmap(_case, box)
     count, shards = (90, 16) if tier == "quick" else (1500, 16)
@@ -170,12 +206,33 @@ def run(prop, args):
             rep.add_violation(("helper", "optimal_steps_binomial"), {"n": n, "s": s},
                               "optimal_steps_binomial(%d,%d)=%r, optimum %d" % (n, s, got, want), kind="helper")
     rep.extra["helper_calls"] = len(hres)
+    pres = R.pristine_wait(probe)
+    rep.extra["boundary_probe_sequence"] = {"pairs": len(pres), "n": list(PROBE_N), "s": list(PROBE_S)}
+    seen_seq = set()
+    for i, o in enumerate(pres):
+        rep.evaluations += 3
+        rep.count("regions", "n>=257")
+        if 1 < o["s"] < o["n"] - 1:
+            rep.nontrivial.add("probe:%d:%d" % (o["n"], o["s"]))
+        for pred, cfg, detail in o["viol"]:
+            b = (C.variant(cfg) if cfg else "helper", pred)
+            if b not in seen_seq:
+                seen_seq.add(b)
+                rep.add_violation(b, {"sequence": probe_pairs()[:i + 1]}, detail + " [after the earlier calls of the sequence, in one process]", kind="sequence")
     R.run_regress(rep, check_witness)
     rep.sample({"helper": "optimal_steps_binomial(30,3)", "closed_form": O.gw_total(30, 3)})
     rep.assumptions = ["true optimum established by exhaustive search only for n<=%d; beyond that by DP/closed form validated against the search on that range" % NS,
                        "stream cost model of DESIGN 2.4: forward steps = sum of (min(n1,n)-n0) over Forward actions"]
 
     def shrink(b, w):
+        if "sequence" in w:
+            seq = w["sequence"]
+            for cand in ([seq[-1]], seq[-2:], seq):
+                r = R.pristine_call("vlib.props.c05.seq_probe", {"pairs": cand})
+                d = [d for p, c, d in r[-1]["viol"] if p == b[1]]
+                if d:
+                    return {"sequence": cand}, d[0] + (" [after the earlier calls of the sequence, in one process]" if len(cand) > 1 else "")
+            return None
         if b[0] == "helper":
             return None
         small = C.shrink(w, lambda c: any(p == b[1] for p, _ in _case(c)["viol"]))
